@@ -109,11 +109,25 @@ def ambiguousB (c : Cls) (T : Table) : Bool :=
 
 def entryNames (c : Cls) (e : Entry) : List Str := e.key :: e.aliases.filter (fun a => !(wordsOf c a).isEmpty)
 
+/-- the word sequences the automaton of the table stores, with their values, in order -/
+def storedW (c : Cls) (T : Table) : List (List Word × TVal) := (addsOf c T).map (fun a => (wordsOf c a.1, a.2))
+
+/-- every name stored under the word sequence `ws` stands for the license `s` (and there is one) -/
+def ownedW (W : List (List Word × TVal)) (ws : List Word) (s : Sym) : Bool :=
+  W.any (fun a => a.1 == ws) && W.all (fun a => !(a.1 == ws) || a.2 == .sym s)
+
+/-- unambiguous in the matcher's own terms: whatever reads like a name of a license is a name of that
+    license only (no other license and no keyword has a name with the same folded words) -/
+def namesUniqueB (c : Cls) (T : Table) : Bool :=
+  let W := storedW c T
+  W.all (fun a => a.1.isEmpty || (match a.2 with | .sym s => ownedW W a.1 s | .kw _ => true))
+
 def indexOK (c : Cls) (T : Table) : Bool :=
   !tableRefused c T &&
   T.all (fun e => (entryNames c e).all (fun n =>
     n.all c.isKeyChar && !keywordStrings.contains (c.fold (collapse c n)) && !(wordsOf c n).isEmpty
-      && (wordsOf c n).all (fun w => !keywordStrings.contains w)))
+      && (wordsOf c n).all (fun w => !keywordStrings.contains w))) &&
+  namesUniqueB c T
 
 /-! ### C01: word accounting on the triples handed to the parser -/
 
